@@ -46,6 +46,8 @@ func runC14(c *Ctx) {
 	c.Rule("R14.3", 5, "main: every error becomes a message and a non-zero exit, never a stack trace")
 	c.Rule("R14.4", 4, "entry points never return success with a nil result")
 	c.Rule("R14.5", 1, "a pointer field that some constructor leaves nil is dereferenced only under a nil test")
+	c.Rule("R14.7", 3, "a pointer or interface returned together with an error is dereferenced only where the error is known to be nil")
+	c.Rule("R14.8", 4, "a counting loop is not bounded by a number written in the input")
 	c.Rule("R14.6", 3, "every recursion in module code descends structurally on an argument (its depth is bounded by the nesting of a value, not by the length of the input)")
 
 	curC14 = c
@@ -135,6 +137,8 @@ func runC14(c *Ctx) {
 		}
 	}
 	c.Extra("functions_in_scope", len(scope))
+	checkErrValueUse(c, "R14.7", scope)
+	checkLoopBounds(c, "R14.8", scope)
 	examinedLines := map[string]bool{}
 	noteLine := func(p token.Pos) {
 		if p.IsValid() {
